@@ -576,6 +576,40 @@ def h_neg(sym):
         _check_plain(sym, world, app, complete=True)
 
 
+def h_restart(sym):
+    """pause() / restart() on one RadioDriver: whether safelink is used (and hence whether the layers above must retransmit)
+    follows the LATEST start-up negotiation, not an earlier one."""
+    first = True if sym.bool('first_confirms') else False
+    second = True if sym.bool('second_confirms') else False
+
+    def session(confirms, drv=None):
+        peer = Peer(capable=confirms)
+        app = App(None, CONCRETE_UP[:1], down=CONCRETE_DOWN[:1])
+        world = World(peer, [ACKED] * (2 + flush_len(1, 1)), neg_via_peer(peer, [ACKED]), app.on_tx)
+        app.world = world
+        if drv is None:
+            drv = open_link(world)
+        else:
+            drv._radio.world = world
+            drv.restart()
+            world.thread = drv._thread
+            world.drv = drv
+        run_link(world)
+        return drv, world, app
+    drv, w1, a1 = session(first)
+    assert drv.needs_resending is (not first), 'first session: needs_resending does not follow the negotiation'
+    drv.pause()
+    assert drv._thread is None
+    drv, w2, a2 = session(second, drv)
+    assert drv.needs_resending is (not second), 'after restart: needs_resending does not follow the latest negotiation'
+    if second:
+        check_delivery(sym, w2, a2)
+    if first and not second:
+        sym.goal('safelink-lost-on-restart')
+    if second and not first:
+        sym.goal('safelink-gained-on-restart')
+
+
 def _raw(p):
     port, chan, data = p
     return [port * 16 + 0x0C + chan] + list(data)
@@ -649,6 +683,7 @@ def h_plain(sym):
 
 G_DELIVERY = ('delivered', 'retransmission', 'uplink-duplicate-rejected', 'downlink-retransmitted')
 HARNESSES = [
+    Harness('restart', h_restart, goals=('safelink-lost-on-restart', 'safelink-gained-on-restart'), symbolic=False, timeout=(120, 300)),
     # concern 1: every loss pattern, concrete packets
     Harness('loss', h_loss, quick=dict(k=6, m=2, d=2), thorough=dict(k=9, m=3, d=3), timeout=(280, 1700), goals=G_DELIVERY),
     Harness('loss-idle-empty', h_loss, quick=dict(k=6, m=2, d=2, idle='empty'), thorough=dict(k=8, m=3, d=3, idle='empty'),
